@@ -13,7 +13,9 @@ from harness.core import Prop
 
 TARGETS = os.path.join(os.path.dirname(os.path.abspath(__file__)), "c20_targets")
 KIND_TARGET = {"std": [], "fromimport": "vt_mod_a.connect", "unloaded": ["vt_mod_b.write_pandas", "vt_mod_b.connect"],
-               "nomodule": "no_such_module_xyz.connect", "noattr": "vt_mod_a.nothing", "notsnow": "os.getcwd"}
+               "nomodule": "no_such_module_xyz.connect", "noattr": "vt_mod_a.nothing", "notsnow": "os.getcwd",
+               # a genuine connector function bound under another name; a foreign function that merely is called connect
+               "alias": "vt_mod_a.sf_connect", "notsnow_named": "vt_mod_c.connect"}
 
 
 def _child(ops, seedtxt):
@@ -34,7 +36,13 @@ def _child(ops, seedtxt):
     conns = []
     ev = []
 
+    import vt_mod_c
+
+    foreign_connect = vt_mod_c.connect
+
     def std():
+        if vt_mod_c.connect is not foreign_connect:
+            return "foreign-replaced"          # a function that is not the connector's was swapped out
         a = snowflake.connector.connect is orig_connect
         b = snowflake.connector.pandas_tools.write_pandas is orig_wp
         if a and b:
@@ -46,12 +54,13 @@ def _child(ops, seedtxt):
     def extra(k):
         if k == "std":
             return "na"
-        mod = vt_mod_a if k == "fromimport" else sys.modules.get("vt_mod_b")
+        mod = vt_mod_a if k in ("fromimport", "alias") else sys.modules.get("vt_mod_b")
         if mod is None:
             return "na"
-        if mod.connect is orig_connect:
+        fn = mod.sf_connect if k == "alias" else mod.connect
+        if fn is orig_connect:
             return "orig"
-        return "fake" if type(mod.connect).__name__ == "MagicMock" else "other"
+        return "fake" if type(fn).__name__ == "MagicMock" else "other"
 
     def closed():
         if not conns:
@@ -83,10 +92,16 @@ def _child(ops, seedtxt):
                     else:  # a nested enter that was NOT refused
                         obs = {"res": "ok-nested", "std": std(), "extra": extra(kind), "closed": "na"}
             elif k == "connect":
-                c = snowflake.connector.connect(database="DB1", schema="S1")
-                c.cursor().execute("select 1")
-                conns.append(c)
-                obs = {"res": "ok", "std": std(), "extra": extra(kind), "closed": "na"}
+                try:
+                    c = snowflake.connector.connect(database="DB1", schema="S1")
+                    c.cursor().execute("select 1")
+                    conns.append(c)
+                    obs = {"res": "ok", "std": std(), "extra": extra(kind), "closed": "na"}
+                except Exception as e:       # e.g. the real connector, because the implementation did not enter the block
+                    obs = {"res": "exc:" + type(e).__name__, "std": std(), "extra": extra(kind), "closed": "na"}
+            elif k == "exit" and cm is None:
+                # the specification's path is inside a block, the implementation refused to enter it
+                obs = {"res": "not-inside", "std": std(), "extra": "na", "closed": "na"}
             elif k == "exit":
                 res = "ok"
                 if op["mode"] == "raise":
